@@ -20,7 +20,7 @@ fn arg_val(args: &[String], name: &str) -> Option<String> {
 fn exec_case(case: &Value, dom_max: usize) -> Value {
     let mut out = serde_json::Map::new();
     out.insert("id".into(), case["id"].clone());
-    if let Some(m) = case.get("meta") { out.insert("meta".into(), m.clone()); }
+    out.insert("meta".into(), match case.get("meta") { Some(m) if m.is_object() => m.clone(), _ => json!({"_": 0}) });
     if let Some(h) = case.get("hist") {
         let (docs, steps) = hist::run_history(case, h, dom_max);
         out.insert("doms".into(), docs);
@@ -50,6 +50,7 @@ fn exec_case(case: &Value, dom_max: usize) -> Value {
         if !cfg.is_object() { cfg = json!({"deco": "plain", "ops": []}); }
         if cfg.get("ops").is_none() { cfg["ops"] = json!([]); }
         cfg["ds"] = ds;
+        if cfg["deco"].is_object() { cfg["decop"] = cfg["deco"].clone(); cfg["deco"] = json!("custom"); }
         let mut r = json!({"d": d + 1, "w": run.get("w").cloned().unwrap_or(json!(-1)), "cfg": cfg, "route": route,
                            "res": exec::outcome_json(o)});
         if let Some(wx) = run.get("wx") { r["wx"] = wx.clone(); r["w"] = json!(-1); }
